@@ -1928,6 +1928,7 @@ impl Engine {
                         self.check_safety(rep, kind);
                     }
                     self.rekey_slow_path_block(rep, viol_before);
+                    self.rekey_recredited_previous_author(rep, viol_before);
                     if onto_cherry_picked_copies {
                         rep.class("squash-rebase-onto-cherry-picked-copies");
                         for v in rep.violations.iter_mut().skip(viol_before) {
@@ -2041,6 +2042,7 @@ impl Engine {
                         self.check_safety(rep, kind);
                     }
                     self.rekey_slow_path_block(rep, viol_before);
+                    self.rekey_recredited_previous_author(rep, viol_before);
                 }
             }
             HOp::MergeSquash { branch, resolve } => {
